@@ -109,7 +109,7 @@ class PresenceTest(_Observer):
             return
         res = outcome[1]
         if res.kind != 'bool':
-            self.forbid(ctx, '%s.presence_test.returns_bool' % tags[0], tags=tags)
+            self.shape(ctx, '%s.presence_test.returns_bool' % tags[0], tags=tags)
             return
         if c.removal:
             P = presence_formula(c.pre, c.u, c.v, c.t, True)
@@ -201,7 +201,7 @@ class HasInteraction(_Observer):
             return
         res = outcome[1]
         if res.kind != 'bool':
-            self.forbid(ctx, '%s.has_interaction.returns_bool' % tags[0], tags=tags)
+            self.shape(ctx, '%s.has_interaction.returns_bool' % tags[0], tags=tags)
             return
         if c.tnone:
             P = spec.ever(c.pre, c.u, c.v)
@@ -318,7 +318,7 @@ class NumberOfInteractionsPair(_Observer):
             return
         res = outcome[1]
         if res.kind != 'int':
-            self.forbid(ctx, 'C02.number_of_interactions_pair.returns_an_int', tags=tags, note='result kind %s' % res.kind)
+            self.shape(ctx, 'C02.number_of_interactions_pair.returns_an_int', tags=tags, note='result kind %s' % res.kind)
             return
         if c.tnone:
             P = spec.ever(c.pre, c.u, c.v)
